@@ -3,6 +3,7 @@ package main
 import (
 	"fmt"
 	"go/types"
+	"regexp"
 	"sort"
 	"strings"
 
@@ -301,6 +302,8 @@ func resetDominates(op *hashOp) bool {
 
 // HTF-AGREE: prover and verifier reduce the hash-to-field digest of a commitment in the same way: the descriptors
 // of the byte strings handed to (*fr.Element).SetBytes after a HashToFieldFn.Sum are equal in Prove and Verify.
+var sumRecvRe = regexp.MustCompile(`hash\.Hash\.Sum\([^,()]*,`)
+
 func RunHtfAgree(p *Prog, r *Report) {
 	cfgRe := strings.NewReplacer("local(ProverConfig)", "cfg", "local(VerifierConfig)", "cfg", "$0.htfFunc", "cfg.HashToFieldFn", "cp$0.htfFunc", "cfg.HashToFieldFn")
 	collect := func(fn *ssa.Function) []string {
@@ -317,7 +320,9 @@ func RunHtfAgree(p *Prog, r *Report) {
 						continue
 					}
 					d = cfgRe.Replace(normIdx(d))
-					// keep the slicing shape and the hasher only
+					// keep the slicing shape only: which expression denotes the hasher depends on where the code sits
+					// (option struct, captured variable, parameter of a helper)
+					d = sumRecvRe.ReplaceAllString(d, "hash.Hash.Sum(H,")
 					out = append(out, d)
 				}
 			}
@@ -343,7 +348,44 @@ func RunHtfAgree(p *Prog, r *Report) {
 			if pf == nil {
 				continue
 			}
-			a, b := collect(pf), collect(vf)
+			// verifier side: Verify and its same-package callees; prover side: the anchor function and, when the
+			// reduction has been moved out of it, every other function of the package outside the verifier
+			vset := map[*ssa.Function]bool{vf: true}
+			var grow func(f *ssa.Function, d int)
+			grow = func(f *ssa.Function, d int) {
+				if d > 2 {
+					return
+				}
+				for _, ff := range funcsWithClosures(f) {
+					for _, bb := range ff.Blocks {
+						for _, ins := range bb.Instrs {
+							if ci, ok := ins.(ssa.CallInstruction); ok {
+								if cal := ci.Common().StaticCallee(); cal != nil && cal.Blocks != nil && FuncPkg(cal) != nil && FuncPkg(cal).Path() == pkg && !vset[cal] {
+									vset[cal] = true
+									grow(cal, d+1)
+								}
+							}
+						}
+					}
+				}
+			}
+			grow(vf, 0)
+			var b []string
+			for f := range vset {
+				b = append(b, collect(f)...)
+			}
+			sort.Strings(b)
+			b = uniq(b)
+			a := collect(pf)
+			if len(a) == 0 {
+				for _, f := range p.Funcs {
+					if pk := FuncPkg(f); pk != nil && pk.Path() == pkg && f.Parent() == nil && !vset[f] {
+						a = append(a, collect(f)...)
+					}
+				}
+				sort.Strings(a)
+				a = uniq(a)
+			}
 			key := "hash-to-field-reduction"
 			if len(a) > 0 && strings.Join(a, "|") == strings.Join(b, "|") {
 				r.Pass("HTF-AGREE", pkg, FuncName(vf), key, p.Pos(FuncPos(vf)), "prover and verifier hand the same byte string shape to SetBytes: "+strings.Join(a, " "), true)
